@@ -71,19 +71,19 @@ func init() {
 		ID:          "C04",
 		Explanation: "RO: scope is computed — every struct in package linker embedding a protoreflect interface whose embedded value is a noOp* placeholder or never assigned (reviewed real delegates are listed). For each, every exported method of the embedded interface (except the sealed ProtoInternal/ProtoType) must be declared on the type itself (method-set selection depth 1), so no attribute query is silently answered by the placeholder.",
 		NotDecided:  "that each override computes the right value (feature resolution, presence, packing, text names, range membership) — value-level",
-		Rules:       []func(*World){roDescriptors},
+		Rules:       []func(*World){roDescriptors, rcfCaseFolding},
 	})
 	register(&Property{
 		ID:          "C09",
 		Explanation: "RM: in the compile path (asParseResult, asFile, doCompile, asAST) the resolver-supplied SearchResult.ParseResult / Proto are used only for nil tests, read-only name checks, and as the argument of parser.Clone / proto.Clone. RL: parser.Clone's copy sets every field of parser.result, each bound to a fresh value (proto.Clone, make) or listed as deliberately shared immutable state; the original's descriptor proto leaves Clone only through proto.Clone; the key kinds written by the put*Node index writers equal those re-created by the clone.",
 		NotDecided:  "equality of descriptors across input forms (value-level); that nothing writes through a supplied Desc/AST (read-only by contract, not cloned)",
-		Rules:       []func(*World){rmCompiler, rlClone},
+		Rules:       []func(*World){rmCompiler, rlClone, rnClone, rl3CloneReadOnly},
 	})
 	register(&Property{
 		ID:          "C24",
 		Explanation: "RL (both halves): parser.Clone's copy sets every field of parser.result with fresh or listed-immutable values, the original proto escapes only through proto.Clone, and the set of node-index key kinds written by parser/result.go equals the set re-created by parser/clone.go.",
 		NotDecided:  "deep equality of the cloned proto (delegated to proto.Clone)",
-		Rules:       []func(*World){rlClone},
+		Rules:       []func(*World){rlClone, rnClone, rl3CloneReadOnly},
 	})
 	register(&Property{
 		ID:          "C18",
@@ -126,5 +126,23 @@ func init() {
 		Explanation: "RZ (one clause): every panic site in internal/toposort is classified; the cycle panic in Sorter.push is reached from a state that depends only on the input graph, contradicting 'on cyclic input it still terminates and yields' (known finding).",
 		NotDecided:  "ordering of the yielded nodes; all trie clauses",
 		Rules:       []func(*World){rzToposort},
+	})
+	register(&Property{
+		ID:          "C20",
+		Explanation: "RN: the option-carrying element kinds (9) and the containment edges between them (12) are computed from the descriptorpb Go types; the options interpreter's traversal (call tree of interpretFileOptions) must follow every containment edge and instantiate its per-element handler for every options kind, and so must the linker's option-name resolution (resolveReferences + package walk) — no element kind can keep uninterpreted or unresolved options after success. RNC: every integer narrowing or sign-changing conversion in the option value coercion functions is dominated by range guards that make it value-preserving (branch-sensitive dataflow over comparisons with constants). RCF: every case-folding operation in the stable compiler is in a reviewed table (Protobuf is case-sensitive).",
+		NotDecided:  "value conversion beyond range preservation, target checks, rejection parity with protoc",
+		Rules:       []func(*World){rnInterpreter, rnLinkerResolve, rncNarrowing, rcfCaseFolding},
+	})
+	register(&Property{
+		ID:          "C22",
+		Explanation: "RN: the strip traversal (call tree of StripSourceRetentionOptionsFromFile) follows all 12 containment edges and touches all 9 options kinds. RN2: the option filter must descend into message-valued option fields (any depth: known finding today); no assignment in source_retention_options.go goes through a pointer/slice parameter (input not modified); every stripped child list is stored back on the rebuilt copy; the source-path tag used for each child list names the same field (tags.<Kind>_<Field>).",
+		NotDecided:  "exactness of the removed source-info paths beyond tag agreement; idempotence",
+		Rules:       []func(*World){rnStrip},
+	})
+	register(&Property{
+		ID:          "C21",
+		Explanation: "RH8: interp.reporter.HandleError* is called only inside the three lenience-aware wrappers, each of which starts with `if lenienceEnabled { lenientErrReported = true; return nil }`; the flags are written only there and in enableLenience. RC7: every proto.Merge into a caller-visible message is preceded on all paths by proto.Reset of the same message (fresh local clones exempt), and in interpreter.interpretOptions no call executes after the caller's options message was first modified (all fallible work happens on the scratch message).",
+		NotDecided:  "equality of values across modes; partial population of the scratch message before a lenient error",
+		Rules:       []func(*World){rh8Lenience, rc7LenientCommit},
 	})
 }
